@@ -182,6 +182,12 @@ inductive Ev where
   | pop
   /-- any other instruction that succeeds -/
   | other
+  /-- `ResumeLabel` (`RESUME label` in an error handler): the label lives at the module level, the
+  procedures in progress are left: `self.stacktrace.clear()` -/
+  | clear
+  /-- a built-in fails and the error is handled (`abandon_failed_call`): the built-in was entered with
+  `PushStack`, its `PopStack` will never run: `self.stacktrace.remove(0)` -/
+  | dropFront
   deriving Repr
 
 /-- The `stacktrace` vector after one instruction (`remove(0)` on an empty vector panics in the code:
@@ -192,6 +198,10 @@ def stepStack (st : List Pos) : Ev → Option (List Pos)
     | [] => none
     | _ :: rest => some rest
   | .other => some st
+  | .clear => some []
+  | .dropFront => match st with
+    | [] => none
+    | _ :: rest => some rest
 
 /-- The vector after a run of instructions, starting from `st`. -/
 def runStack : List Pos → List Ev → Option (List Pos)
